@@ -105,6 +105,13 @@ type kpOuter struct {
 	PP       **kpInner
 	F        func()
 }
+// a field promoted through two levels of embedded pointers: the outer one may be set while the inner one is nil
+type kpDeepLeaf struct{ DeepKey string }
+type kpDeepMid struct{ *kpDeepLeaf }
+type kpDeepTop struct {
+	*kpDeepMid
+	Top string
+}
 type kpAmbA struct{ Dup string }
 type kpAmbB struct{ Dup string }
 type kpAmb struct {
@@ -142,6 +149,10 @@ func kpCorpus() []interface{} {
 		&kpOuter{Name: "o"},                                                        // nil embedded pointer
 		&kpOuter{kpInner: in, kpEmb: kpEmb{Key2: "e"}, Name: "o", Items: []*kpInner{in, nil, {Key: "z"}}, Vals: []kpInner{{Key: "v1"}, {Key: "v2"}}, Ifs: []interface{}{in, "s", nil, 7}, PP: &pin},
 		&kpAmb{Own: "own"},
+		&kpDeepTop{Top: "t"},                                                             // both levels nil
+		&kpDeepTop{kpDeepMid: &kpDeepMid{}, Top: "t"},                                    // outer set, inner nil
+		&kpDeepTop{kpDeepMid: &kpDeepMid{kpDeepLeaf: &kpDeepLeaf{DeepKey: "dk"}}, Top: "t"}, // all set
+		&kpOuter{Name: "o2", Items: []*kpInner{{Any: &kpDeepTop{kpDeepMid: &kpDeepMid{}}}}},
 		&kpInner{Any: "iface-string", Keys: []string{}},
 		&pb.ApiConfig{ChannelPool: &pb.ChannelPoolConfig{MaxSize: 3}, Method: []*pb.MethodConfig{{Name: []string{"m1", "m2"}, Affinity: &pb.AffinityConfig{AffinityKey: "key"}}, {Name: []string{"m3"}}}},
 		&pb.MethodConfig{Name: []string{}},
@@ -154,6 +165,7 @@ var kpLocators = []string{"", "key", "Key", "keys", "num", "blob", "arr", "m", "
 	"name", "items.key", "items.keys", "vals.key", "ifs.key", "ifs", "pP.key", "pP", "f", "key2", "dup", "own", "kpInner.key", "kpEmb.key2",
 	"channelPool.maxSize", "method.name", "method.affinity.affinityKey", "method.affinity", "nestedField.key", "nestedField.repeatedString",
 	"repeatedField.key", "repeatedString", "repeatedInt", "key.x", "next..key", ".key", "key.", "next.", "..", "items", "x-y", "next key", "_x", "9a", "next.Key", "NEXT.KEY", "id", "child.key", "extra",
+	"deepKey", "top", "kpDeepMid.deepKey", "kpDeepMid.kpDeepLeaf.deepKey", "items.any.deepKey",
 	"namedKeys", "next.namedKeys", "items.namedKeys", "Überweg", "next.Überweg", "Ключи", "vals.Überweg", "Überweg.x"}
 
 // ---- random shapes built with reflect
